@@ -420,7 +420,7 @@ theorem sim_evalInt (fuel : Nat) :
       cases nd with
       | port => exact sim_fail _
       | command _ _ => exact sim_fail _
-      | integer pv =>
+      | integer pv cs =>
         refine sim_weaken (ih pv) (fun v _ => inSelRange_trivial ?_ v)
         unfold selRange; rw [hn]
       | reg r =>
@@ -442,6 +442,13 @@ theorem sim_evalInt (fuel : Nat) :
         | string => exact sim_fail _
         | raw => exact sim_fail _
 
+theorem sim_forEachM {fC : NodeId → M Store Unit} {fU : NodeId → M Unit Unit}
+    (hf : ∀ c, Sim p g (fun _ => True) (fC c) (fU c)) (cs : List NodeId) :
+    Sim p g (fun _ => True) (forEachM fC cs) (forEachM fU cs) := by
+  induction cs with
+  | nil => exact sim_pure _ trivial
+  | cons c cs ih => exact sim_bind (hf c) (fun _ _ => ih)
+
 theorem sim_setInt (hD : Declared p g) (fuel : Nat) :
     ∀ n v, Sim p g (fun _ => True) (setInt defaultCache p g fuel n v) (setInt sinkCache p g fuel n v) := by
   induction fuel with
@@ -458,9 +465,10 @@ theorem sim_setInt (hD : Declared p g) (fuel : Nat) :
       cases nd with
       | port => exact sim_fail _
       | command _ _ => exact sim_fail _
-      | integer pv =>
+      | integer pv cs =>
         dsimp only
-        exact sim_bind (sim_invBy n) (fun _ _ => ih pv v)
+        refine sim_bind (sim_invBy n) (fun _ _ => ?_)
+        exact sim_bind (ih pv v) (fun _ _ => sim_forEachM (fun c => ih c v) cs)
       | reg r =>
         dsimp only
         cases hk : r.kind with
@@ -494,7 +502,7 @@ theorem sim_opValue (fuel : Nat) (n : NodeId) :
     cases nd with
     | port => exact sim_fail _
     | command _ _ => exact sim_fail _
-    | integer pv =>
+    | integer pv cs =>
       dsimp only
       exact sim_bind (sim_evalInt fuel n) (fun v _ => sim_pure _ trivial)
     | reg r =>
@@ -526,7 +534,7 @@ theorem sim_opSetValue (hD : Declared p g) (fuel : Nat) (n : NodeId) (v : Val) :
     cases nd with
     | port => exact sim_fail _
     | command _ _ => exact sim_fail _
-    | integer pv =>
+    | integer pv cs =>
       dsimp only
       cases v with
       | int i =>
@@ -630,6 +638,18 @@ theorem sim_opIsDone (fuel : Nat) (n : NodeId) :
         exact sim_pure _ trivial
     | _ => exact sim_fail _
 
+theorem sim_opAddress (fuel : Nat) (n : NodeId) :
+    Sim p g (fun _ => True) (opAddress defaultCache p g fuel n) (opAddress sinkCache p g fuel n) := by
+  unfold opAddress
+  cases hn : g[n]? with
+  | none => exact sim_fail _
+  | some nd =>
+    cases nd with
+    | reg r =>
+      dsimp only
+      exact sim_bind (sim_regAddr (sim_evalInt fuel) r) (fun a _ => sim_pure _ trivial)
+    | _ => exact sim_fail _
+
 theorem sim_evalOp (hD : Declared p g) (fuel : Nat) (op : Op)
     (hop : ∀ n a d, op = .portWrite n a d → PortDeclared g n) :
     Sim p g (fun _ => True) (evalOp defaultCache p g fuel op) (evalOp sinkCache p g fuel op) := by
@@ -646,6 +666,7 @@ theorem sim_evalOp (hD : Declared p g) (fuel : Nat) (op : Op)
     exact sim_bind (sim_portWrite (hop n a d rfl) a d) (fun _ _ => sim_pure _ trivial)
   | clearCache =>
     exact sim_bind sim_clearCache (fun _ _ => sim_pure _ trivial)
+  | address n => exact sim_opAddress fuel n
 
 /-- one public operation -/
 theorem sim_run (hD : Declared p g) (op : Op)
